@@ -1,7 +1,7 @@
 """C04 -- A rule is offered for a packet iff every field satisfies its matching operator."""
 from core import rng_for, mk, bits_of, L, R, randbits
 from schc_run import Batch, case_match
-from schc_util import gen_rule, KINDS
+from schc_util import gen_rule, KINDS, n_rule
 from gens import gen_parsed, ALL_STACKS, no_compression_rule, mutate_rule, synth_case, synth_pdesc
 from microschc.rfc8724 import DirectionIndicator as DI, RuleDescriptor, PacketDescriptor
 
@@ -56,6 +56,30 @@ def run(rep, tier, seed):
         for d in (DI.UP, DI.DOWN, DI.UP, DI.DOWN):
             pd.direction = d
             case_match(b, pd, shared_rules, klass='match-shared-ruler:' + stack, ruler=shared)
+        if i % 4 == 0:
+            # two matchers of ONE Ruler alive at the same time (the generator is lazy: a caller may take one rule for packet A, start
+            # on packet B, then come back for the next rule of A): each must go on with its own packet
+            _, _, _, pd_b = gen_parsed(rnd, stack)
+            pd.direction, pd_b.direction = DI.UP, rnd.choice([DI.UP, DI.DOWN])
+            from core import impl_outcome
+
+            def interleaved():
+                ga, gb = shared.match_packet_descriptor(pd), shared.match_packet_descriptor(pd_b)
+                ya, yb = [], []
+                for _k in range(len(shared_rules) + 1):
+                    for g_, y_ in ((ga, ya), (gb, yb)):
+                        r_ = next(g_, None)
+                        if r_ is not None:
+                            y_.append([j for j, x in enumerate(shared_rules) if x is r_][0])
+                return ya, yb
+            got = impl_outcome(interleaved)
+            want = impl_outcome(lambda: ([j for j, x in enumerate(shared_rules) if any(x is r_ for r_ in Ruler(shared_rules).match_packet_descriptor(pd))],
+                                         [j for j, x in enumerate(shared_rules) if any(x is r_ for r_ in Ruler(shared_rules).match_packet_descriptor(pd_b))]))
+            rep.count('match-interleaved-generators', key=('inter', i))
+            rep.oracle_evals += 1
+            if got != want:
+                rep.violation('property', 'two matchers of one Ruler consumed in turn yield rules %s, each packet alone yields %s' % (got, want),
+                              dict(layer='schc', op='match-interleaved', stack=stack, packet=pkt.hex(), rules=[n_rule(r) for r in shared_rules]))
         for d in (DI.UP, DI.DOWN):
             pd.direction = d
             from schc_util import KINDS as _K
